@@ -49,6 +49,25 @@ CHECKS = {
         note='Trusted: the reading of when nonlocal/remote apply (stated in the evidence assumptions), the audit hook. One open cell (local file '
              'object without base_url under nonlocal) is counted, not judged. Known finding: root start tag beyond the 64 KiB DefusableReader buffer on '
              'non-seekable streams is refused with XMLResourceOSError.'),
+    'C10': dict(
+        technique='explicit-state exploration of call histories on one schema object: unmerged history tree to depth 2/3 + merged BFS to fixpoint over object-graph fingerprints',
+        text='Model checking by explicit-state search: 94 events (8 public operations x 11 documents built to collide on shared mutable state, plus '
+             'direct simple-type calls through the per-schema scratch context). Pass A replays EVERY history of length 2 (quick) / 3 (thorough) on a '
+             'fresh schema without merging and compares the last result with the fresh-schema result; pass B is a breadth-first search to fixpoint '
+             'over states merged by a generic fingerprint of every mutable container reachable from the schema, evaluating the invariant in every state.',
+        design_ref='DESIGN.md section 2, C10',
+        note='Trusted: result canonicalisation (error multiset, repr of data). The event menu bounds what residue can be observed; histories longer than '
+             'the unmerged depth are covered only through the merged search, whose fingerprint leaves out lru-cache fill levels.'),
+    'C19': dict(
+        technique='exhaustive single-fault injection at every node of every enumerated valid document; independent path walker; reference validator decides fault applicability',
+        text='Model checking by complete enumeration: 11 generated schemas with ALL their valid instances up to 10 (quick) / 14 (thorough: complete instance sets) '
+             'nodes plus 70 valid corpus documents; every fault of a 12-kind catalogue at every node, through 3 source kinds. Each error path is evaluated by '
+             'an independent path walker and must select exactly the error element; a damaged document must be invalid with an error on the damaged node or its '
+             'parent and none outside its ancestor chain and subtree.',
+        design_ref='DESIGN.md section 2, C19',
+        note='Trusted: mc/ref/pathwalk.py, the plain-Python reference validator of mc/gen/docs_c19.py (decides whether an edit is a fault), libxml2 for corpus '
+             'applicability. Lazy resources are explored and counted, not judged. Known findings: no-namespace child under a default namespace gets an unresolvable path; '
+             'text accepted in a single-xs:any content model.'),
 }
 
 PENDING_REASON = 'check not built yet in this session; the design (DESIGN.md section 2) applies bounded exhaustive exploration to it'
